@@ -89,10 +89,10 @@ def run(rep):
     cxfam = dict(Ops='{"Inflate","Diagonalize","Multiply","Add","Ravel","Unravel","LoopSum","InsertAxis","Transpose","Take","Sum","FloatToComplex","Conjugate","Negative","TakeDiag","LoopConcat","Real","Imag"}',
                  LeafSet='{1, 2, 13, 14, 15, 20, 22, 41, 43, 44, 48, 49, 50}', MaxOps=5, MaxNodes=10, MaxLeaves=4)
     # element dependent block sizes: Inflate / Take / InsertAxis with loop dependent lengths under LoopSum / LoopConcat
-    dynfam = dict(Ops='{"RangeN","InsertAxisN","LoopConcat","LoopSum","Take","Inflate","Multiply","Add","IntToFloat","Sum","InsertAxis","Diagonalize","Transpose"}',
-                  LeafSet='{1, 2, 4, 8, 13, 20, 22, 23, 39}', MaxOps=5, MaxNodes=9, MaxLeaves=4)
+    dynfam = dict(Ops='{"MacroLenTab","RangeN","InsertAxisN","LoopConcat","LoopSum","Take","Inflate","Multiply","Add","IntToFloat","Sum","InsertAxis","Diagonalize","Transpose"}',
+                  LeafSet='{1, 2, 4, 8, 13, 20}', MaxOps=5, MaxNodes=9, MaxLeaves=4)
     sel = exprs.corpus(rep, rng, 'c05', k, quick=quick, need_arg=False, extra=[('sparse', fam, 200 if quick else 3000)])
-    for ps in exprs.extended(rep, rng, 'c05-ext', ['cxsparse', 'dynsparse', 'einsum'], k // 10, quick=quick, families=dict(cxsparse=cxfam, dynsparse=dynfam)).values():
+    for ps in exprs.extended(rep, rng, 'c05-ext', ['cxsparse', 'dynsparse', 'einsum'], k // 15, quick=quick, families=dict(cxsparse=cxfam, dynsparse=dynfam)).values():
         sel += ps
     rep.lap('generated')
     items = [(p, i % len(dag.ENVS)) for i, p in enumerate(sel)]
